@@ -113,7 +113,7 @@ pub enum ModelDec {
 }
 
 pub fn parse_model_dec<T: V>(resp: &str) -> (ModelDec, bool) {
-    let abs_same = resp.ends_with(" abs=same");
+    let abs_same = resp.ends_with(" abs=same") || resp.ends_with(" abs=by-theorem");
     let body = match resp.rfind(" abs=") {
         Some(i) => &resp[..i],
         None => resp,
@@ -137,6 +137,19 @@ pub fn parse_model_dec<T: V>(resp: &str) -> (ModelDec, bool) {
     }
 }
 
+/// inputs beyond this size are not sent to the model (its list-backed interpreter is quadratic in the input length);
+/// the implementation-side oracles still run on them. The golden family raises it for the golden file.
+pub static MODEL_MAX_BYTES: std::sync::atomic::AtomicUsize = std::sync::atomic::AtomicUsize::new(49152);
+
+fn model_ok(len: usize, c: &mut Collector) -> bool {
+    if len > MODEL_MAX_BYTES.load(Ordering::Relaxed) {
+        c.stat("model-skipped-large-input");
+        false
+    } else {
+        true
+    }
+}
+
 pub struct ValueOpts {
     pub prefixes: bool,
     pub max_prefixes: usize,
@@ -156,7 +169,11 @@ pub fn case_value<T: V>(v: &T, r: &mut Rng, c: &mut Collector, q: &mut Vec<Pendi
     if let Out::Panic(m) = &enc {
         c.fail("enc-panic", "oracle", &format!("{}|enc-panic", name), case_id.clone(), m.clone());
     }
-    if let Some(ty) = T::ty() {
+    let enc_len = match &enc {
+        Out::Ok(b) => b.len(),
+        _ => 0,
+    };
+    if let Some(ty) = T::ty().filter(|_| model_ok(enc_len, c)) {
         let impl_enc_text = match &enc {
             Out::Ok(b) => format!("ok {}", hex(b)),
             Out::Err(k) => format!("err {}", k),
@@ -251,7 +268,7 @@ pub fn case_value<T: V>(v: &T, r: &mut Rng, c: &mut Collector, q: &mut Vec<Pendi
         }
     }
     // the model decodes the implementation's bytes (+ suffix)
-    if let Some(ty) = T::ty() {
+    if let Some(ty) = T::ty().filter(|_| model_ok(bytes.len(), c)) {
         let cid = case_id.clone();
         let nm = name.clone();
         let blen = bytes.len();
@@ -294,7 +311,7 @@ pub fn case_bytes<T: V>(b: &[u8], origin: &str, c: &mut Collector, q: &mut Vec<P
     if max_alloc > alloc_budget.max(65536).max(16 * b.len()) {
         c.fail("dec-alloc", "oracle", &format!("{}|dec-alloc", name), case_id.clone(), format!("largest single allocation request {} bytes", max_alloc));
     }
-    if let Some(ty) = T::ty() {
+    if let Some(ty) = T::ty().filter(|_| model_ok(b.len(), c)) {
         let impl_text = match &out {
             Out::Ok((v, rest)) => format!("ok {} {}", v.canon(), b.len() - rest.len()),
             Out::Err(k) => format!("err {}", k),
